@@ -28,17 +28,17 @@ package document
 //@ ensures m == nil ==> result == nil
 //@ ensures m != nil ==> fresh(result) && result.abstractNums != nil && fresh(result.abstractNums) && result.numInstances != nil && fresh(result.numInstances)
 //@ ensures m != nil ==> result.nextAbstractNumID == m.nextAbstractNumID && result.nextNumID == m.nextNumID
-//@ ensures m != nil ==> forall k string :: (has(result.abstractNums, k) <==> has(m.abstractNums, k)) && (has(m.abstractNums, k) ==> result.abstractNums[k] == m.abstractNums[k])
+//@ ensures m != nil ==> forall k abstractNumKey :: (has(result.abstractNums, k) <==> has(m.abstractNums, k)) && (has(m.abstractNums, k) ==> result.abstractNums[k] == m.abstractNums[k])
 //@ ensures m != nil ==> forall k string :: (has(result.numInstances, k) <==> has(m.numInstances, k)) && (has(m.numInstances, k) ==> result.numInstances[k] == m.numInstances[k])
 //@ loop 1
 //@   invariant unchangedHeap() && c != nil && fresh(c) && c.abstractNums != nil && fresh(c.abstractNums) && c.numInstances != nil && fresh(c.numInstances) && c.abstractNums != c.numInstances
 //@   invariant c.nextAbstractNumID == m.nextAbstractNumID && c.nextNumID == m.nextNumID
-//@   invariant forall k string :: (has(c.abstractNums, k) <==> seen(k)) && (seen(k) ==> has(m.abstractNums, k) && c.abstractNums[k] == m.abstractNums[k])
+//@   invariant forall k abstractNumKey :: (has(c.abstractNums, k) <==> seen(k)) && (seen(k) ==> has(m.abstractNums, k) && c.abstractNums[k] == m.abstractNums[k])
 //@   invariant forall k string :: !has(c.numInstances, k)
 //@ loop 2
 //@   invariant unchangedHeap() && c != nil && fresh(c) && c.abstractNums != nil && fresh(c.abstractNums) && c.numInstances != nil && fresh(c.numInstances) && c.abstractNums != c.numInstances
 //@   invariant c.nextAbstractNumID == m.nextAbstractNumID && c.nextNumID == m.nextNumID
-//@   invariant forall k string :: (has(c.abstractNums, k) <==> has(m.abstractNums, k)) && (has(m.abstractNums, k) ==> c.abstractNums[k] == m.abstractNums[k])
+//@   invariant forall k abstractNumKey :: (has(c.abstractNums, k) <==> has(m.abstractNums, k)) && (has(m.abstractNums, k) ==> c.abstractNums[k] == m.abstractNums[k])
 //@   invariant forall k string :: (has(c.numInstances, k) <==> seen(k)) && (seen(k) ==> has(m.numInstances, k) && c.numInstances[k] == m.numInstances[k])
 
 //@ func (*FootnoteManager).clone
